@@ -23,14 +23,27 @@ REPO = '/repo'
 
 def expectations(patch):
     out = []
+    base = os.path.basename(patch)
+    mp = re.match(r'^(?:S_)?(C\d+)_', base) or re.match(r'^(C\d+)_', os.path.basename(os.path.dirname(patch)).replace('S_', ''))
+    filepid = mp.group(1) if mp else None
     with open(patch, errors='replace') as f:
         for line in f:
             m = re.match(r'^#\s*expects:\s*(C\d+)\s*(.*)$', line.strip())
             if m:
                 out.append((m.group(1), m.group(2).strip()))
+                continue
             m = re.match(r'^#\s*silent:\s*(C\d+)', line.strip())
             if m:
                 out.append((m.group(1), None))    # behaviour-preserving edit: the check must stay silent
+                continue
+            # headers written by the part authors: "# expects: R20.3 free text" - the property is the
+            # file's prefix and the rule id must occur in the report; "# expects: SILENT ..." = silence
+            m = re.match(r'^#\s*expects:\s*(SILENT|R\d+\.\d+\w*)', line.strip())
+            if m and filepid:
+                if m.group(1) == 'SILENT':
+                    out.append((filepid, None))
+                else:
+                    out.append((filepid, re.match(r'R\d+\.\d+', m.group(1)).group(0)))
     return out
 
 
